@@ -31,6 +31,10 @@ def gen(rng):
         s = netgen.gen_heat_tree(rng)
     else:
         s = netgen.gen_heat_loop(rng)
+    if r >= 0.6 and rng.random() < 0.35:
+        netgen.add_thermal_island(rng, s)
+        if rng.random() < 0.6:
+            s["options"]["mode"] = "bidirectional"
     nj = len(s["junctions"])
     s["c08"] = {"pn": [float(x) for x in rng.uniform(0.5, 1.6, nj)], "tf": [float(x) for x in rng.uniform(-25, 25, nj)],
                 "methods": [str(rng.choice(["constant", "automatic"])), str(rng.choice(["constant", "automatic"]))]}
